@@ -5,7 +5,7 @@ import json
 import os
 
 from . import impl
-from .common import parse_kv, parse_nl
+from .common import nl, parse_kv, parse_nl
 
 
 def rle(b):
@@ -248,6 +248,7 @@ NAME_TAILS = ["", "", ".wav", ".WAV", ".Wav", ".bin", ".", ".wav.wav", " .wav", 
 def tape_name_stream(ctx, rng, n):
     """the name in the tape header: an explicit name is written exactly as given (whatever it ends in), an inferred
     one is the file name of the output path without a final '.wav'; 17 bytes and more are refused"""
+    mreqs, mjobs = [], []
     for _ in range(n):
         directive = rng.choice(["make_wav", "make_turbo_wav"])
         stem, tail = rng.choice(NAME_STEMS), rng.choice(NAME_TAILS)
@@ -284,9 +285,22 @@ def tape_name_stream(ctx, rng, n):
             continue
         got = r.emitted[0][4]
         fmt = r.emitted[0][2]
+        # Model.Container.tapeName on the same operands (code points; the path operand as written)
+        mreqs.append("tapename %s %s %s" % (nl(map(ord, name)) if explicit else "none", nl(map(ord, "/w/" + path)), nl(map(ord, "/w/prog.mac"))))
+        mjobs.append((inp, bytes(got)))
         if got != enc.ljust(16, b" ") or fmt != ("bk_wav" if directive == "make_wav" else "bk_turbo_wav"):
             ctx.violation("the name in the tape header is not the name the source states (explicit: as written; inferred: the output "
                           "file name without '.wav')", inp, expected=enc.ljust(16, b" ").hex(), observed={"name": bytes(got).hex(), "format": fmt})
+    # directives without operands: the name comes from the source file name
+    for src_name in ["prog.mac", "PROG.MAC", "Game.Mac", "noext", "a.b.mac", "x.wav.mac", "dir.d/n.mac"]:
+        r = impl.assemble([("/w/" + src_name, "nop\nmake_wav\n")], charset="bk")
+        if r.outcome == "ok" and len(r.emitted) == 1:
+            mreqs.append("tapename none none %s" % nl(map(ord, "/w/" + src_name)))
+            mjobs.append(({"source file": src_name, "source": "nop\nmake_wav\n"}, bytes(r.emitted[0][4])))
+    for (inp, got), a in zip(mjobs, ctx.driver.ask(mreqs)):
+        want = "".join(map(chr, parse_nl(a))).encode("bk").ljust(16, b" ") if a != "bad-op" else a
+        if want != got:
+            ctx.disagree("Model.Container.tapeName", inp, want.hex() if isinstance(want, bytes) else want, got.hex())
 
 
 def search(ctx, broken):
